@@ -290,9 +290,9 @@ package server
 // table invariant that a key filed in the slow map is counted in its slot's count
 //@ func (*LockDB).GetOrNewLockManager
 //@   trusted lock-free key table: at most one live manager per key (assumed); only the result's shape is used
-//@   at call AddUint32#1 assert C01.table.unique: implies(fastValue.count >= 1 || !has(self.locks, command.LockKey), !has(self.locks, command.LockKey) || self.locks[command.LockKey] == nil || self.locks[command.LockKey].refCount == 0xffffffff)
-//@   at call AddUint32#5 assert C01.table.unique: implies(fastValue.count >= 1 || !has(self.locks, command.LockKey), !has(self.locks, command.LockKey) || self.locks[command.LockKey] == nil || self.locks[command.LockKey].refCount == 0xffffffff)
-//@   at call AddUint32#9 assert C01.table.unique: implies(fastValue.count >= 1 || !has(self.locks, command.LockKey), !has(self.locks, command.LockKey) || self.locks[command.LockKey] == nil || self.locks[command.LockKey].refCount == 0xffffffff)
+//@   at call AddUint32#1 assert C01.table.unique,C19.table.unique: implies(fastValue.count >= 1 || !has(self.locks, command.LockKey), !has(self.locks, command.LockKey) || self.locks[command.LockKey] == nil || self.locks[command.LockKey].refCount == 0xffffffff)
+//@   at call AddUint32#5 assert C01.table.unique,C19.table.unique: implies(fastValue.count >= 1 || !has(self.locks, command.LockKey), !has(self.locks, command.LockKey) || self.locks[command.LockKey] == nil || self.locks[command.LockKey].refCount == 0xffffffff)
+//@   at call AddUint32#9 assert C01.table.unique,C19.table.unique: implies(fastValue.count >= 1 || !has(self.locks, command.LockKey), !has(self.locks, command.LockKey) || self.locks[command.LockKey] == nil || self.locks[command.LockKey].refCount == 0xffffffff)
 //@   ensures result != nil && result.glock != nil && result.state != nil && result.lockDb == self && result.freeLocks != nil
 //@   modifies protocol.LockDBState.KeyCount, protocol.LockDBState.SlowKeyCount, LockDB.freeLockManagerHead, LockDB.freeLockManagerTail, LockDB.managerGlockIndex, LockManager.fastKeyValue, LockManager.lockKey, LockManager.refCount, E_Pserver_LockManager, E_server_FastKeyValue, MH_mapLL16JbyteJPserver_LockManager, MV_mapLL16JbyteJPserver_LockManager
 
@@ -644,8 +644,11 @@ package server
 //@ func (*LongWaitLockQueue).Pop
 //@   trusted queue internals (long-wait table), subject of C20
 //@   modifies LongWaitLockQueue.*, LockQueue.*, Lock.longWaitIndex, E_LJPserver_Lock, E_Pserver_Lock, E_int32
+// the number of slots a sweeper has to pop to drain a long-table queue is the deque's own length (holes left by
+// removals included), not the number of live entries: popping fewer leaves live requests behind in a recycled queue
 //@ func (*LongWaitLockQueue).Len
 //@   trusted queue internals (long-wait table), subject of C20
+//@   ensures C20.longwait.len,C05.longwait.len,C06.longwait.len: calls(LockQueue.Len) == 1
 //@   modifies nothing
 
 //@ func (*LockDB).checkTimeTimeOut
@@ -1269,6 +1272,7 @@ package server
 //@   at call removeServerProtocol assert C18.close.marked: self.closed && !old(self.closed) && len(self.proxys) <= 1 && forall(j, 0, len(old(self.proxys)), ref(old(self.proxys)[j].serverProtocol) == defaultServerProtocol)
 //@   at call removeServerProtocol after assume self.willCommands == before(self.willCommands) && self.glock == before(self.glock)
 //@   ensures C18.close.once: implies(old(self.closed), calls(ProcessCommad) == 0 && calls(Pop) == 0)
+//@   ensures C18.close.drained: implies(calls(Pop) >= 1, calls(Pop) == calls(ProcessCommad) + 1)
 //@   modifies all
 
 //@ func (*TextServerProtocol).Close
@@ -1280,6 +1284,14 @@ package server
 //@   at call removeServerProtocol assert C18.close.marked: self.closed && !old(self.closed) && len(self.proxys) <= 1 && forall(j, 0, len(old(self.proxys)), ref(old(self.proxys)[j].serverProtocol) == defaultServerProtocol)
 //@   at call removeServerProtocol after assume self.willCommands == before(self.willCommands) && self.glock == before(self.glock)
 //@   ensures C18.close.once: implies(old(self.closed), calls(ProcessCommad) == 0 && calls(Pop) == 0)
+//@   ensures C18.close.drained: implies(calls(Pop) >= 1, calls(Pop) == calls(ProcessCommad) + 1)
+//@   modifies all
+
+// C18: a connection whose first command fails still ends like any other connection: the protocol object created for it
+// (which may already hold wills registered by that first command) is closed before the accept path gives up on it
+//@ func (*Server).checkProtocol
+//@   requires self != nil && stream != nil && self.slock != nil
+//@   ensures C18.accept.closed-on-error: implies(isnil(result0) && calls(ProcessParse) == 1, calls(Close) == 1)
 //@   modifies all
 
 // =====================================================================================================
